@@ -398,7 +398,9 @@ impl<'a> From<&'a [Pair]> for Value {
 
         for (k, v) in value {
             if let Some(k) = k.as_str() {
-                newd.insert(FastStr::new(k), v.clone());
+                // with duplicated keys, keep the first member: the one `get` returns before
+                // the object is converted to the mutable map
+                newd.entry(FastStr::new(k)).or_insert_with(|| v.clone());
             }
         }
 
